@@ -160,21 +160,44 @@ def normalize_renames(text, doc):
     missing = [a for a in table if a not in present]
     unknown = [f for i, f in present.items() if i not in table and not f.get("from_expansion")]
     renames = {}
+    scored = {}
+    callers_now = {}
+    for f in doc["fns"]:
+        who = f["id"] if f["kind"] != "closure" else f["id"].split("::{closure")[0]
+        for c in _local_callees(f):
+            callers_now.setdefault(c, set()).add(who)
     for a in missing:
         want = table[a]
-        cands = []
         for f in unknown:
-            if f["sp"][0] != want["file"] or f.get("inputs") != want["inputs"] or f.get("output") != want["output"] or f["id"] in renames:
+            if f["sp"][0] != want["file"] or f.get("output") != want["output"]:
                 continue
-            # (renames of other functions show up in the callee sets too: compare by last path segment of what is still known)
-            have = {c for c in _local_callees(f)}
-            old = set(want["callees"])
+            same_order = f.get("inputs") == want["inputs"]
+            # (a free function turned into a method, or the reverse, may also move its receiver to the front: the same parameter
+            # types in another order count when all of them are different types)
+            permuted = (not same_order and sorted(f.get("inputs") or []) == sorted(want["inputs"] or []) and
+                        len(set(want["inputs"] or [])) == len(want["inputs"] or []))
+            if not (same_order or permuted):
+                continue
+            have = {c for c in _local_callees(f)} - {f["id"]}      # (recursion shows up under the new name)
+            old = set(want["callees"]) - {a}
             union = have | old
             sim = len(have & old) / len(union) if union else 1.0
             if sim >= 0.5:
-                cands.append((sim, f["id"]))
-        if len(cands) == 1:
-            renames[cands[0][1]] = a
+                size = abs(len((f.get("mir") or {}).get("blocks", [])) - (want.get("blocks") or 0))
+                cu = callers_now.get(f["id"], set()) | set(want.get("callers") or ())
+                csim = len(callers_now.get(f["id"], set()) & set(want.get("callers") or ())) / len(cu) if cu else 1.0
+                scored.setdefault(a, []).append((-sim, -csim, size, f["id"]))
+    # several renamed functions can share one signature (optimize_xor / optimize_and): each anchor takes its best candidate (callees,
+    # then size of the body) if that is strictly better than the next one and no other anchor wants the same function
+    taken = {}
+    for a, cands in scored.items():
+        cands.sort()
+        if len(cands) == 1 or cands[0][:3] < cands[1][:3]:
+            taken.setdefault(cands[0][3], []).append((cands[0][:3], a))
+    for new_id, wanted_by in taken.items():
+        wanted_by.sort()
+        if len(wanted_by) == 1 or wanted_by[0][0] < wanted_by[1][0]:
+            renames[new_id] = wanted_by[0][1]
     if not renames:
         return None, {}
     for new, old in sorted(renames.items(), key=lambda kv: -len(kv[0])):
@@ -215,10 +238,18 @@ def normalize_param_order(doc):
         n = m["arg_count"]
         have = [(m["locals"][i].get("name"), m["locals"][i]["ty"]) for i in range(1, n + 1)]
         frozen = list(zip(want["param_names"], want.get("param_tys") or []))
-        if have == frozen or len(have) != len(frozen) or sorted(map(str, have)) != sorted(map(str, frozen)) or len(set(have)) != len(have) or any(nm is None for nm, _ in have):
+        if have == frozen or len(have) != len(frozen):
             continue
-        # perm: local index now -> local index in the frozen order
-        perm = {i + 1: frozen.index(have[i]) + 1 for i in range(n)}
+        have_tys, frozen_tys = [t for _, t in have], [t for _, t in frozen]
+        if sorted(map(str, have)) == sorted(map(str, frozen)) and len(set(have)) == len(have) and not any(nm is None for nm, _ in have):
+            # perm: local index now -> local index in the frozen order (same names and types, another order)
+            perm = {i + 1: frozen.index(have[i]) + 1 for i in range(n)}
+        elif have_tys != frozen_tys and sorted(have_tys) == sorted(frozen_tys) and len(set(have_tys)) == len(have_tys):
+            # all parameter types differ from each other: the order is recovered from the types (names may have changed, e.g. a
+            # parameter that became `self`)
+            perm = {i + 1: frozen_tys.index(have_tys[i]) + 1 for i in range(n)}
+        else:
+            continue
         _renumber(m["blocks"], perm)
         new_locals = list(m["locals"])
         for old_i, new_i in perm.items():
